@@ -126,7 +126,9 @@ func loadProgram(patterns []string, overlay map[string][]byte) (*Exec, error) {
 		}
 	}
 	// library globals known to hold a non-nil value assigned once at initialisation
-	for _, k := range []string{"G:github.com/gopacket/gopacket.NilDecodeFeedback"} {
+	for _, k := range []string{"G:github.com/gopacket/gopacket.NilDecodeFeedback",
+		"G:github.com/scionproto/scion/pkg/slayers.LayerClassHopByHopExtn",
+		"G:github.com/scionproto/scion/pkg/slayers.LayerClassEndToEndExtn"} {
 		x.errGlobals[k] = len(x.errGlobals) + 1
 	}
 	// contracts: every loaded root package with a zz_verif_contracts*.go file
@@ -459,8 +461,10 @@ func runCheck(o checkOpts) (int, *checkOutcome) {
 	// known findings: the relaxed obligation (W or O) was proved above; report each listed finding
 	for name, f := range known {
 		if x.obligs[name] == nil {
-			// obligation no longer generated: stale entry, mention but do not fail
-			fmt.Printf("KNOWN-FINDING: property=%s %s (obligation %s not generated on this tree)\n", o.prop, f.What, name)
+			if f.Property == o.prop {
+				// obligation no longer generated: stale entry, mention but do not fail
+				fmt.Printf("KNOWN-FINDING: property=%s %s (obligation %s not generated on this tree)\n", o.prop, f.What, name)
+			}
 			continue
 		}
 		fmt.Printf("KNOWN-FINDING: property=%s %s\n", o.prop, f.What)
